@@ -45,10 +45,12 @@ type ChildCase struct {
 	// Raw: rawload mode hands this program (code, jt, jf, k) to seccomp(2) directly.
 	Raw [][4]uint32 `json:"raw,omitempty"`
 
-	Conc    *ConcCase    `json:"conc,omitempty"`
-	History *HistoryCase `json:"history,omitempty"`
-	TSync   *TSyncCase   `json:"tsync,omitempty"`
-	NNPCase *NNPCase     `json:"nnp_case,omitempty"`
+	// StraceInject: extra strace arguments (fault injection) used by the parent when the case runs under strace.
+	StraceInject []string     `json:"strace_inject,omitempty"`
+	Conc         *ConcCase    `json:"conc,omitempty"`
+	History      *HistoryCase `json:"history,omitempty"`
+	TSync        *TSyncCase   `json:"tsync,omitempty"`
+	NNPCase      *NNPCase     `json:"nnp_case,omitempty"`
 }
 
 // HistoryCase: a history of load calls over pinned threads (C09).
@@ -235,6 +237,7 @@ func RunChild(bin, mode string, c *ChildCase, strace bool, timeout time.Duration
 		if c.Unprivileged {
 			args = append(args, "-u", "nobody") // strace stays root, the tracee runs as uid/gid 65534 without capabilities
 		}
+		args = append(args, c.StraceInject...)
 		cmd = exec.Command("strace", append(args, bin, mode, casePath)...)
 	} else {
 		cmd = exec.Command(bin, mode, casePath)
